@@ -27,7 +27,7 @@ def describe(tier):
             "the same alphabet, every ordered pair of them drawn from a 14-keyword menu (prefixes of one another, case variants, duplicates), and all "
             "length-3 keywords over {a,A,.}; each (list, data) is given to find_keywords and compared, as a complete list of (start, end, value, "
             "label, type) per keyword, with a reference: leftmost non-overlapping case-insensitive literal search (re.finditer on the escaped keyword) + "
-            "ASCII-alphanumeric neighbour filter + MixedCase truth table from the statement. Keywords next to / inside alphanumeric runs whose length runs over the boundary ladder (0..5000, thorough ..70000). EVERY pair of byte values (65536) immediately before and immediately after an occurrence of 3 keywords (thorough: 3-byte neighbourhoods over 48 interesting bytes). A generated keyword directory (CRLF, blank lines, nested "
+            "ASCII-alphanumeric neighbour filter + MixedCase truth table from the statement. Keywords next to / inside alphanumeric runs whose length runs over the boundary ladder (0..5000, thorough ..70000). EVERY pair of byte values (65536) immediately before and immediately after an occurrence of 3 keywords (thorough: 3-byte neighbourhoods over 48 interesting bytes). Every ordered pair of the 14-keyword menu passed as each of 11 kinds of iterable (tuple, iterator, generator, map, dict views, reversed, set, frozenset, filter, chain). A generated keyword directory (CRLF, blank lines, nested "
             "dir, duplicates) is also loaded through build_registry and its searchers compared on the same data. states = distinct (keyword list, data) "
             "pairs, transitions = keyword occurrences examined by the reference, traces = calls compared. Non-trivial = a pair with >= 1 expected hit."
         ),
@@ -45,12 +45,21 @@ def keywords_1_2():
 PAIR_MENU = [b"a", b"A", b"aa", b"aA", b"Aa", b"ab", b"a.", b".a", b"1", b"a1", b" ", b"a a", b"\xe9", b"b"]
 
 
+# find_keywords(label, keywords: Iterable[bytes], data): every kind of iterable a caller can pass, including single-use ones
+ITERABLE_KINDS = [
+    ("tuple", tuple), ("iterator", iter), ("generator", lambda k: (x for x in k)), ("map", lambda k: map(bytes, k)), ("dict-keys", lambda k: dict.fromkeys(k).keys()),
+    ("reversed", lambda k: reversed(k[::-1])), ("frozenset", frozenset), ("set", set), ("filter", lambda k: filter(None, k + [b""])),
+    ("chain", lambda k: itertools.chain(k[:1], k[1:])), ("dict-values", lambda k: {i: x for i, x in enumerate(k)}.values()),
+]
+
+
 def plan(tier, seed):
     units = [("single", tier, i) for i in range(len(keywords_1_2()))]
     units += [("pair", tier, i) for i in range(len(PAIR_MENU))]
     units += [("triple", tier)]
     units += [("registry", tier), ("runs", tier)]
     units += [("neigh", tier, hi) for hi in range(0, 256, 16)]
+    units += [("iterables", tier, k) for k in range(len(ITERABLE_KINDS))]
     units += core.interp_axis([("triple", tier), ("registry", tier), ("neigh", tier, 80)])
     return units
 
@@ -141,6 +150,17 @@ def run_unit(unit, rec):
                         rec.mark("states", 0, True)
                         check(rec, "api", [kw], data)
         rec.sample({"keywords": kws, "run_lengths": core.ladder(0, 5000)[-6:]})
+    elif kind == "iterables":
+        name, make = ITERABLE_KINDS[unit[2]]
+        n = 0
+        for k1 in PAIR_MENU:
+            for k2 in PAIR_MENU:
+                kws = [k1, k2] if k1 != k2 else [k1]
+                for data in datas(maxlen - 2):
+                    rec.mark("states", 0, True)
+                    check(rec, "file.name", kws, data, fn=lambda d, kws=kws: find_keywords("file.name", make(list(kws)), d))
+                    n += 1
+        rec.sample({"family": "iterable-kinds", "kind": name, "cases": n})
     elif kind == "neigh":
         # EVERY pair of byte values immediately before, and immediately after, an occurrence (only the ASCII-alphanumeric status of the one
         # adjacent byte may matter: escapes, high bytes, control bytes and what precedes them must not)
